@@ -59,6 +59,12 @@ Theorem C12_vmx_pairs_accepts : forall ps, vmx_pairs_gate ps = Ok tt ->
 Proof. exact vmx_pairs_accepts. Qed.
 Print Assumptions C12_vmx_pairs_accepts.
 
+Example C12_vmx_pairs_nonvacuous :
+  vmx_pairs_gate [(true, false); (true, true); (false, true)] = Ok tt /\
+  vmx_pairs_gate [(true, false); (false, true); (true, true)] = Err /\
+  vmx_pairs_gate [(true, false)] = Err.
+Proof. repeat split; reflexivity. Qed.
+
 Theorem C12_hyperv_accepts : forall h, hyperv_gate h = Ok tt ->
   (if hv2_seq h <? hv1_seq h then hv1_sig h else hv2_sig h) = 19406868 /\
   (if hv2_seq h <? hv1_seq h then hv1_ver h else hv2_ver h) = 1024 /\
